@@ -704,6 +704,215 @@ def influence(f, operand, exclude_test=None, max_rounds=50):
     return {"fields": fields, "calls": calls, "args": args, "tests": tests}
 
 
+def _remap(x, lmap, bmap):
+    """Deep copy of a MIR fact fragment with locals and block ids renumbered."""
+    if isinstance(x, list):
+        return [_remap(y, lmap, bmap) for y in x]
+    if isinstance(x, dict):
+        if "l" in x and "p" in x and isinstance(x["p"], list):
+            return {"l": lmap(x["l"]), "p": [({**e, "index": lmap(e["index"])} if isinstance(e, dict) and "index" in e else e) for e in x["p"]]}
+        out = {}
+        for k, v in x.items():
+            if k in ("target", "otherwise", "cleanup", "unwind", "real_target", "imaginary_target") and isinstance(v, int):
+                out[k] = bmap(v)
+            elif k == "targets" and isinstance(v, list):
+                out[k] = [bmap(y) for y in v]
+            else:
+                out[k] = _remap(v, lmap, bmap)
+        return out
+    return x
+
+
+def inline_calls(P, f, depth=2, max_blocks=600, _stack=(), max_callee_blocks=None, keep=()):
+    """A view of f with the bodies of PRIVATE helper functions of the same file spliced in at their call sites (arguments copied
+    into fresh locals, `return` replaced by an assignment to the call's destination and a jump to its successor), recursively up
+    to `depth`.  Rules that look at the order / dominance / data flow inside one function stay valid when code is extracted into
+    such helpers.  The view keeps f's path and line information; statements of a helper carry the helper's own lines."""
+    import copy
+    d = copy.deepcopy(f.d)
+    blocks = d["blocks"]
+    locals_ = d["locals"]
+    changed = False
+    for cb in range(len(f.blocks)):
+        t = blocks[cb]["term"]
+        if t["k"] != "call":
+            continue
+        cal = t.get("resolved") or t.get("callee")
+        g = P.fns.get(cal)
+        if g is None or g.kind == "closure" or g.file != f.file or g.vis == "Public" or g.path == f.path or cal in _stack or \
+                len(g.blocks) > max_blocks or g.coroutine or len(t["args"]) != g.arg_count:
+            continue
+        if max_callee_blocks is not None and len(g.blocks) > max_callee_blocks:
+            continue
+        if cal in keep:
+            continue
+        if depth <= 0:
+            continue
+        gi = inline_calls(P, g, depth - 1, max_blocks, _stack + (f.path,), max_callee_blocks, keep) if depth > 1 else g
+        base = len(locals_)
+        boff = len(blocks) + 1
+        lmap = lambda l, base=base: l + base
+        bmap = lambda b, boff=boff: b + boff
+        for lj in gi.locals:
+            locals_.append(dict(lj, inlined=g.path))
+        entry = {"stmts": [], "term": {"k": "goto", "target": boff, "line": t.get("line")}}
+        for i, a in enumerate(t["args"]):
+            entry["stmts"].append({"k": "assign", "dst": {"l": base + i + 1, "p": []}, "rv": {"k": "use", "a": copy.deepcopy(a)}, "line": t.get("line"),
+                                   "inlined_arg": True})
+        blocks.append(entry)
+        entry_id = len(blocks) - 1
+        assert entry_id + 1 == boff
+        tgt = t.get("target")
+        for gb in gi.blocks:
+            nb = _remap(gb, lmap, bmap)
+            if nb["term"]["k"] == "return":
+                nb["stmts"].append({"k": "assign", "dst": copy.deepcopy(t["dst"]), "rv": {"k": "use", "a": {"mv": {"l": base, "p": []}}},
+                                    "line": nb["term"].get("line"), "inlined_ret": g.path})
+                nb["term"] = {"k": "goto", "target": tgt, "line": nb["term"].get("line")} if tgt is not None else {"k": "unreachable"}
+            blocks.append(nb)
+        blocks[cb]["term"] = {"k": "goto", "target": entry_id, "line": t.get("line"), "inlined_call": g.path}
+        d.setdefault("inlined", []).append(g.path)
+        changed = True
+        # ---- jump threading: a spliced return whose Result / Option variant is known goes straight to the matching arm of
+        # the caller's test on the call's destination (otherwise the correlation "callee failed <=> Err arm" is lost)
+        if tgt is not None and not t["dst"]["p"]:
+            _thread_returns(blocks, boff, len(gi.blocks), base, t["dst"]["l"], tgt)
+    if not changed:
+        return f
+    nf = Fn(d, f.crate)
+    nf.inlined = d.get("inlined", [])
+    return nf
+
+
+_VARIANT_VALUE = {"Ok": 0, "Err": 1, "None": 0, "Some": 1, "Continue": 0, "Break": 1}
+
+
+def _known_variant(blk, ret_local):
+    """Variant name assigned to ret_local by the last definition in this block, if it is an Ok/Err/Some/None literal (or `?`)."""
+    v = None
+    for st in blk["stmts"]:
+        if st["k"] == "assign" and st["dst"]["l"] == ret_local and not st["dst"]["p"]:
+            rv = st["rv"]
+            if rv["k"] == "agg" and rv.get("adt") in ("core::result::Result", "core::option::Option"):
+                v = rv.get("variant")
+            else:
+                v = None
+    return v
+
+
+def _thread_returns(blocks, boff, n, base, dst_local, tgt):
+    import copy
+    T = blocks[tgt]
+
+    def arm_of(variant):
+        """(extra blocks to append, entry) specialising the caller's test on dst_local for this variant, or None."""
+        val = _VARIANT_VALUE.get(variant)
+        if val is None:
+            return None
+        tt = T["term"]
+        # pattern 1:  x = discr(dst); switch x
+        if tt["k"] == "switch":
+            on = tt["on"].get("mv") or tt["on"].get("cp")
+            if on and not on["p"]:
+                ds = [s for s in T["stmts"] if s["k"] == "assign" and s["dst"]["l"] == on["l"]]
+                if len(ds) == 1 and ds[0]["rv"]["k"] == "discr" and ds[0]["rv"]["place"] == {"l": dst_local, "p": []}:
+                    vals = dict(zip(tt["values"], tt["targets"]))
+                    to = vals.get(val, tt.get("otherwise"))
+                    if to is not None:
+                        return [{"stmts": copy.deepcopy(T["stmts"]), "term": {"k": "goto", "target": to, "line": tt.get("line"), "threaded": variant}}]
+        # pattern 2:  y = Try::branch(move dst) -> T2 ;  T2: x = discr(y); switch x
+        if tt["k"] == "call" and (tt.get("callee") or "").endswith("Try::branch") and tt["args"] and \
+                (tt["args"][0].get("mv") or tt["args"][0].get("cp")) == {"l": dst_local, "p": []} and tt.get("target") is not None:
+            T2 = blocks[tt["target"]]
+            t2 = T2["term"]
+            y = tt["dst"]["l"]
+            if t2["k"] == "switch":
+                on = t2["on"].get("mv") or t2["on"].get("cp")
+                if on and not on["p"]:
+                    ds = [s for s in T2["stmts"] if s["k"] == "assign" and s["dst"]["l"] == on["l"]]
+                    if len(ds) == 1 and ds[0]["rv"]["k"] == "discr" and ds[0]["rv"]["place"] == {"l": y, "p": []}:
+                        vals = dict(zip(t2["values"], t2["targets"]))
+                        cf = 0 if variant in ("Ok", "Some") else 1
+                        to = vals.get(cf, t2.get("otherwise"))
+                        if to is not None:
+                            b2 = {"stmts": copy.deepcopy(T2["stmts"]), "term": {"k": "goto", "target": to, "line": t2.get("line"), "threaded": variant}}
+                            b1 = {"stmts": copy.deepcopy(T["stmts"]), "term": dict(copy.deepcopy(tt), target=None)}
+                            return [b1, b2]
+        return None
+    ret_ty = None
+    # the spliced return blocks: goto tgt with the copy into dst as last statement
+    ret_blocks = {k for k in range(boff, boff + n) if blocks[k]["term"]["k"] == "goto" and blocks[k]["term"].get("target") == tgt and
+                  blocks[k]["stmts"] and blocks[k]["stmts"][-1].get("inlined_ret")}
+    if not ret_blocks:
+        return
+
+    def single_succ(k):
+        t = blocks[k]["term"]
+        if t["k"] in ("goto", "drop") and t.get("target") is not None:
+            return t["target"]
+        return None
+
+    def defines_ret(k, upto=None):
+        return any(s["k"] == "assign" and s["dst"]["l"] == base and not s["dst"]["p"] for s in (blocks[k]["stmts"] if upto is None else blocks[k]["stmts"][:upto]))
+    for k in range(boff, boff + n):
+        blk = blocks[k]
+        variant = None
+        if k in ret_blocks:
+            variant = _known_variant({"stmts": blk["stmts"][:-1]}, base)
+            start = None
+        else:
+            variant = _known_variant(blk, base)
+            t = blk["term"]
+            if variant is None and t["k"] == "call" and "from_residual" in (t.get("callee") or "") and t["dst"] == {"l": base, "p": []}:
+                variant = "Err" if "Result<" in (t.get("dst_ty") or "") or (t.get("dst_ty") or "").startswith("core::result::Result") else \
+                    ("None" if (t.get("dst_ty") or "").startswith("core::option::Option") else None)
+            start = t.get("target") if t["k"] in ("goto", "drop", "call") else None
+        if variant is None:
+            continue
+        arm = arm_of(variant)
+        if arm is None:
+            continue
+        if k in ret_blocks:
+            first = len(blocks)
+            if len(arm) == 2:
+                arm[0]["term"]["target"] = first + 1
+            blocks.extend(arm)
+            blk["term"] = dict(blk["term"], target=first)
+            continue
+        # follow the straight-line tail (drops / gotos) from the assignment to the spliced return, cloning it for this variant
+        chain = []
+        cur = start
+        ok = False
+        steps = 0
+        while cur is not None and boff <= cur < boff + n and steps < 64:
+            steps += 1
+            if cur in ret_blocks:
+                if defines_ret(cur, upto=len(blocks[cur]["stmts"]) - 1):
+                    break
+                chain.append(cur)
+                ok = True
+                break
+            if defines_ret(cur) or single_succ(cur) is None:
+                break
+            chain.append(cur)
+            cur = single_succ(cur)
+        if not ok:
+            continue
+        first_arm = len(blocks) + len(chain)
+        clones = []
+        for idx_, c in enumerate(chain):
+            nb = copy.deepcopy(blocks[c])
+            nxt = (len(blocks) + idx_ + 1) if idx_ + 1 < len(chain) else first_arm
+            nb["term"] = dict(nb["term"], target=nxt)
+            clones.append(nb)
+        blocks.extend(clones)
+        if len(arm) == 2:
+            arm[0]["term"]["target"] = first_arm + 1
+        blocks.extend(arm)
+        entry = first_arm - len(chain)
+        blk["term"] = dict(blk["term"], target=entry)
+
+
 class Program:
     def __init__(self, docs):
         self.docs = docs
@@ -736,6 +945,17 @@ class Program:
         self._callers = None
 
     # ---- lookup ---------------------------------------------------------------------------------
+    def inlined(self, path, depth=2, small=None, keep=()):
+        """fn(path) with private same-file helpers spliced in (see inline_calls); `small` = only helpers of at most that many
+        blocks (for very large functions); memoised."""
+        if not hasattr(self, "_inl"):
+            self._inl = {}
+        key = (path, depth, small, tuple(sorted(keep)))
+        if key not in self._inl:
+            f = self.fns.get(path)
+            self._inl[key] = inline_calls(self, f, depth, max_callee_blocks=small, keep=tuple(keep)) if f is not None else None
+        return self._inl[key]
+
     def fn(self, path):
         return self.fns.get(path)
 
@@ -1082,6 +1302,14 @@ def lock_states(fn, acq_site, guard_local, extra_release_blocks=()):
 
 # ---- outcome arms of a fallible call ----------------------------------------------------------------
 
+# calls that hand the outcome of their receiver on (possibly changing Result <-> Option, which the arm detection reads off the type)
+OUTCOME_ADAPTERS = ("core::ops::try_trait::Try>::branch", "Result::<T, E>::ok", "Result::<T, E>::map", "Result::<T, E>::map_err",
+                    "Option::<T>::ok_or", "Option::<T>::ok_or_else", "Option::<T>::map", "Context<T, E> for core::result::Result<T, E>>::context",
+                    "Context<T, E> for core::result::Result<T, E>>::with_context", "Context<T, core::convert::Infallible> for core::option::Option<T>>::context",
+                    "Context<T, core::convert::Infallible> for core::option::Option<T>>::with_context", "Result::<T, E>::and_then",
+                    "Option::<T>::and_then", "Option::<T>::copied", "Option::<T>::cloned", "Option::<&T>::copied", "Option::<&T>::cloned")
+
+
 def outcome_arms(fn, call_site):
     """For a call site whose destination is a Result (or Option), find how the body branches on it.
     Returns {'ok': [blocks], 'err': [blocks], 'switch': [blocks]}: `ok` blocks are entered only when
@@ -1100,7 +1328,7 @@ def outcome_arms(fn, call_site):
             if l in carriers:
                 continue
             for df in dfs:
-                if df["k"] == "call" and callee_of(df["t"]).endswith("core::ops::try_trait::Try>::branch"):
+                if df["k"] == "call" and callee_of(df["t"]).endswith(OUTCOME_ADAPTERS) and df["t"]["args"]:
                     a = df["t"]["args"][0]
                     if op_local(a) in carriers and not op_place(a)["p"]:
                         carriers.add(l)
@@ -1110,12 +1338,14 @@ def outcome_arms(fn, call_site):
                     if p and not p["p"] and p["l"] in carriers:
                         carriers.add(l)
                         changed = True
-    discr_locals = set()
+    discr_locals = {}
     for b, i, s in fn.stmts():
         if s["k"] == "assign" and s["rv"]["k"] == "discr":
             pl = s["rv"]["place"]
             if pl["l"] in carriers and not pl["p"]:
-                discr_locals.add(s["dst"]["l"])
+                # which discriminant value means "succeeded": Result Ok = 0, ControlFlow Continue = 0, Option Some = 1
+                ty = fn.local_ty(pl["l"])
+                discr_locals[s["dst"]["l"]] = 1 if ty.startswith("core::option::Option<") else 0
     out = {"ok": [], "err": [], "switch": []}
     preds = fn.preds()
     for b in fn.reachable():
@@ -1127,11 +1357,12 @@ def outcome_arms(fn, call_site):
             continue
         out["switch"].append(b)
         vals = dict(zip(tt["values"], tt["targets"]))
-        okb = vals.get(0)
-        errb = vals.get(1)
-        if okb is None and 1 in vals:
+        okv = discr_locals[l]
+        okb = vals.get(okv)
+        errb = vals.get(1 - okv)
+        if okb is None and (1 - okv) in vals:
             okb = tt["otherwise"]
-        if errb is None and 0 in vals:
+        if errb is None and okv in vals:
             errb = tt["otherwise"]
         for blk, name in ((okb, "ok"), (errb, "err")):
             if blk is not None and set(preds.get(blk, [])) == {b}:
